@@ -240,29 +240,31 @@ func runC17_4(c *Ctx) {
 	_, codeIdx := p.FieldIndex(securePkg, "decryptPlugin", "statCode")
 	unmarshal := p.MethodObj(Root+"/socket", "Body", "UnmarshalBody")
 	setBody := p.MethodObj(Root+"/socket", "Body", "SetBody")
+	// the function that decrypts: the hook itself, or a helper of the package it calls (extract-method tolerant)
+	top := fn
+	var dcall *ssa.Call
 	decs := CallsTo(fn, aesDec)
+	if len(decs) == 0 {
+		for _, call := range AllCalls(top) {
+			sc := call.Common().StaticCallee()
+			cc, isCall := call.(*ssa.Call)
+			if isCall && sc != nil && sc.Pkg == top.Pkg && len(CallsTo(sc, aesDec)) > 0 {
+				fn, dcall = sc, cc
+			}
+		}
+		decs = CallsTo(fn, aesDec)
+	}
 	if len(decs) != 1 {
-		c.Viol("decrypt call", p.Pos(fn.Pos()), fmt.Sprintf("expected one AESDecrypt, found %d", len(decs)))
+		c.Viol("decrypt call", p.Pos(top.Pos()), fmt.Sprintf("expected one AESDecrypt, found %d", len(decs)))
 		return
 	}
+	statRes := fn.Signature.Results().Len() - 1
 	dec := decs[0].(*ssa.Call)
 	// version test
 	var mismatch, match *ssa.BasicBlock
-	for _, b := range fn.Blocks {
-		ifi, ok := b.Instrs[len(b.Instrs)-1].(*ssa.If)
-		if !ok {
-			continue
-		}
-		bo, ok := ifi.Cond.(*ssa.BinOp)
-		if !ok || (bo.Op != token.NEQ && bo.Op != token.EQL) {
-			continue
-		}
-		if !isFieldLoad(bo.Y, dpN, verIdx) && !isFieldLoad(bo.X, dpN, verIdx) {
-			continue
-		}
-		mismatch, match = b.Succs[0], b.Succs[1]
-		if bo.Op == token.EQL {
-			mismatch, match = match, mismatch
+	for _, ee := range EqEdges(fn) {
+		if isFieldLoad(ee.X, dpN, verIdx) {
+			mismatch, match = ee.Ne, ee.Eq
 		}
 	}
 	okVer := match != nil && BlockDominatesInstr(match, dec) && isFieldLoad(dec.Call.Args[0], dpN, keyIdx)
@@ -275,7 +277,7 @@ func runC17_4(c *Ctx) {
 			return false
 		}
 		for _, e := range w.Exits {
-			v := ReturnVals(e.(*ssa.Return))[0]
+			v := ReturnVals(e.(*ssa.Return))[statRes]
 			call, ok := v.(*ssa.Call)
 			if !ok || !IsLoadOfGlobal(call.Call.Value, newStatus) || !isFieldLoad(call.Call.Args[0], dpN, codeIdx) {
 				return false
@@ -295,18 +297,51 @@ func runC17_4(c *Ctx) {
 	c.Check(okDecFail, "decrypt failure is refused", p.InstrPos(dec), "err != nil => NewStatus(e.statCode, ...)", "a failed AESDecrypt does not end in a fresh non-OK status with the plugin's code")
 	// restore + decode only after: every UnmarshalBody / SetBody is unreachable from the failure edges and follows the version test
 	okAfter := true
-	for _, call := range AllCalls(fn) {
-		if !IsCallTo(call, unmarshal, setBody) {
-			continue
+	if dcall != nil {
+		// helper form: the hook returns the helper's refusal unchanged and restores/decodes only on its nil edge
+		okAfter = false
+		isStat := func(v ssa.Value) bool {
+			ex, ok := v.(*ssa.Extract)
+			return ok && ex.Tuple == ssa.Value(dcall) && ex.Index == statRes
 		}
-		if mismatch != nil && len(p.ReachableFromBlock(mismatch, func(i ssa.Instruction) bool { return i == call.(ssa.Instruction) }, nil, nil)) > 0 {
-			okAfter = false
+		for _, e := range NilCmpEdges(top, isStat) {
+			w := &Walk{P: p}
+			w.FromBlock(e.NonNil)
+			prop := len(w.Exits) > 0
+			for _, x := range w.Exits {
+				if !isStat(ReturnVals(x.(*ssa.Return))[0]) {
+					prop = false
+				}
+			}
+			guarded := true
+			for _, call := range AllCalls(top) {
+				if IsCallTo(call, unmarshal, setBody) && !BlockDominatesInstr(e.Nil, call) {
+					guarded = false
+				}
+			}
+			if prop && guarded {
+				okAfter = true
+			}
 		}
-		if len(p.ReachableFrom(call, func(i ssa.Instruction) bool { return i == ssa.Instruction(dec) }, nil, nil)) > 0 {
-			okAfter = false
+		for _, call := range AllCalls(fn) {
+			if IsCallTo(call, unmarshal, setBody) {
+				okAfter = false
+			}
+		}
+	} else {
+		for _, call := range AllCalls(fn) {
+			if !IsCallTo(call, unmarshal, setBody) {
+				continue
+			}
+			if mismatch != nil && len(p.ReachableFromBlock(mismatch, func(i ssa.Instruction) bool { return i == call.(ssa.Instruction) }, nil, nil)) > 0 {
+				okAfter = false
+			}
+			if len(p.ReachableFrom(call, func(i ssa.Instruction) bool { return i == ssa.Instruction(dec) }, nil, nil)) > 0 {
+				okAfter = false
+			}
 		}
 	}
-	c.Check(okAfter, "raw body restored and decoded only after decryption", p.Pos(fn.Pos()), "SetBody(rawbody)/UnmarshalBody follow the decrypt and are unreachable from the refusal edges", "the raw body is restored or decoded on a refusal path or before decryption")
+	c.Check(okAfter, "raw body restored and decoded only after decryption", p.Pos(top.Pos()), "SetBody(rawbody)/UnmarshalBody follow the decrypt and are unreachable from the refusal edges", "the raw body is restored or decoded on a refusal path or before decryption")
 }
 
 // sameViaCellExtract: v is a load of a cell into which extract #1 of call is stored.
